@@ -1957,6 +1957,10 @@ class Result:
         if len(env_lengths) > 1 or env_lengths.values() != {shorten_to}:
             n_shortened = sum(v for k,v in env_lengths.items() if k > shorten_to)
             interactions = interactions.where(index={'<=':shorten_to}) #.4
+            left = list(interactions.groupby(3,select=None))
+            if len(left) != sum(env_lengths.values()):
+                #an evaluation without any index<=shorten_to is gone as a whole (its indexes did not start at 1)
+                to_drop,to_keep = True,left
             if n_shortened==1: CobaContext.logger.log(f"We shortened {n_shortened} learner evaluation because it was longer than the shortest environment.")
             if n_shortened>=2: CobaContext.logger.log(f"We shortened {n_shortened} learner evaluations because they were longer than the shortest environment.")
 
